@@ -1518,6 +1518,7 @@ func runC19(r *harness.Run) {
 	r.Extra["traces_validated_against_impl"] = totTrans
 	r.Extra["campaigns"] = campReports
 	r.Extra["disk_comparisons"] = atomic.LoadInt64(&c.disks)
+	runPinned(r, "C19")
 }
 
 // replayC19 re-executes one stored history.
